@@ -148,6 +148,7 @@ bool StepScript(InterpreterEnv& env)
         env.vfExec_history.push_back(env.vfExec);
         env.pbegincodehash_history.push_back(env.pbegincodehash);
         env.execdata_history.push_back(env.execdata);
+        env.opcode_pos_history.push_back(env.opcode_pos);
 
         if (!StepScript(env, pc)) {
             // undo above pushes
@@ -158,11 +159,14 @@ bool StepScript(InterpreterEnv& env)
             env.vfExec_history.pop_back();
             env.pbegincodehash_history.pop_back();
             env.execdata_history.pop_back();
+            env.opcode_pos_history.pop_back();
             return false;
         }
 
         // Update environment
         env.curr_op_seq++;
+        // BIP342 signs the position of the last executed OP_CODESEPARATOR, so count opcodes as EvalScript does
+        ++env.opcode_pos;
         return true;
     }
 
@@ -258,6 +262,7 @@ bool RewindScript(InterpreterEnv& env)
     env.vfExec = env.vfExec_history.back();
     env.pbegincodehash = env.pbegincodehash_history.back();
     env.execdata = env.execdata_history.back();
+    env.opcode_pos = env.opcode_pos_history.back();
     // Pop
     env.stack_history.pop_back();
     env.altstack_history.pop_back();
@@ -266,6 +271,7 @@ bool RewindScript(InterpreterEnv& env)
     env.vfExec_history.pop_back();
     env.pbegincodehash_history.pop_back();
     env.execdata_history.pop_back();
+    env.opcode_pos_history.pop_back();
     return true;
 }
 
